@@ -47,9 +47,13 @@ func VerifH_C03_SeekTo() {
 	c := vChoose("target", n)
 	tr := e.transient()
 	vf := &VersionedFetcher{txn: e.txn, store: tr, ctx: e.ctx, col: &vCol{def: e.def}, queuedCids: list.New()}
+	headBefore, dataBefore := e.txn.head.clone(), e.txn.data.clone()
 	err := vf.seekTo(e.commits[c].compCid)
 	vCover("sought")
 	vAssert(err == nil, "seek-no-error")
+	// a read at a commit must not write to the transaction it runs in (its heads and documents)
+	vAssert(vKVEqual(headBefore, e.txn.head), "read-leaves-the-heads-of-the-surrounding-transaction-untouched")
+	vAssert(vKVEqual(dataBefore, e.txn.data), "read-leaves-the-documents-of-the-surrounding-transaction-untouched")
 	if err != nil {
 		return
 	}
